@@ -1,6 +1,6 @@
 (* C18 - example listeners survive arbitrary datagrams. *)
 From Coq Require Import List NArith String Bool.
-From O1722 Require Import Bits Host FieldModel Spec ExCan ExListeners C13Proofs C18Proofs.
+From O1722 Require Import Bits Host FieldModel Spec ExCan ExListeners C13Proofs C18Proofs C18Stale.
 Import ListNotations.
 Local Open Scope N_scope.
 
@@ -15,6 +15,12 @@ Local Open Scope N_scope.
 Theorem C18_can : forall E udp fd d stale, List.length stale = 1500%nat ->
   survives (fst (can_listener (ldqE E) (stqE E) E udp fd d stale)).
 Proof. exact can_listener_safe. Qed.
+
+(* ... and what it does - status and every frame written - does not depend on those stale bytes at all: every
+   read the receive path performs lies inside the bytes that were received (no use of uninitialised memory) *)
+Theorem C18_can_stale_independent : forall E udp fd d s1 s2, List.length s1 = 1500%nat -> List.length s2 = 1500%nat ->
+  can_listener (ldqE E) (stqE E) E udp fd d s1 = can_listener (ldqE E) (stqE E) E udp fd d s2.
+Proof. exact can_listener_stale_independent. Qed.
 
 (* hello-world (GPC) and ACF-VSS listeners: state = the receive buffer of main, whose previous contents stay behind
    a shorter datagram; every sequence of datagrams from every initial buffer content *)
@@ -69,6 +75,7 @@ Example C18_example_can_zero_length :   (* a zero-length ACF message is dropped,
 Proof. vm_compute. reflexivity. Qed.
 
 Print Assumptions C18_can.
+Print Assumptions C18_can_stale_independent.
 Print Assumptions C18_hello.
 Print Assumptions C18_vss.
 Print Assumptions C18_aaf.
